@@ -57,16 +57,18 @@ def check (s : St) : Ev → Option String
       else none
   | .wreq _ _ part pid epoch seq cnt ids =>
     let stream := s.batches.filter (fun b => sameStream b part pid epoch)
+    let failed (i : Id) : Bool := s.promises.any (fun p => p.1 == i && !p.2.1)
     match stream.find? (·.seq == seq) with
     | some b =>
-      -- a sequence number seen before in this (producer id, epoch, partition) must carry the same records
-      if b.ids != ids || b.cnt != cnt then some "C02.sequence-reused-for-different-records" else none
+      -- a sequence number seen before in this (producer id, epoch, partition) carries the same records
+      -- (a retry), unless every record of the earlier batch was failed: then the number is free again
+      -- (that those failed records are not in the log is checked when the log is read back)
+      if b.ids == ids && b.cnt == cnt then none
+      else if b.ids.all failed then none
+      else some "C02.sequence-reused-for-different-records"
     | none =>
-      -- a new batch continues the stream exactly where the previous new batch ended (mod 2^31), or starts it at 0
-      match stream.head? with
-      | some last => if seq != (last.seq + last.cnt) % seqMod then some "C02.sequence-gap" else
-          if ids.any (fun i => stream.any (fun b => b.ids.contains i)) then some "C02.record-in-two-batches-of-one-epoch" else none
-      | none => if seq != 0 then some "C02.stream-does-not-start-at-zero" else none
+      -- (the broker-side view can miss requests written to a dying connection, so no contiguity rule here)
+      if ids.any (fun i => stream.any (fun b => b.ids.contains i && !(b.ids.all failed))) then some "C02.record-in-two-batches-of-one-epoch" else none
   | .wresp _ _ _ _ _ => none
   | .logEntry part off id =>
     if s.log.any (fun e => e.1 == part && e.2.1 == off) then some "C02.two-records-at-one-offset"
@@ -97,8 +99,8 @@ def apply (s : St) : Ev → St
   | .promise id ok part off => { s with promises := (id, ok, part, off) :: s.promises }
   | .wreq n act part pid epoch seq cnt ids =>
     let b : Batch := ⟨part, pid, epoch, seq, cnt, ids⟩
-    let known := s.batches.any (fun x => sameStream x part pid epoch && x.seq == seq)
-    { s with batches := if known then s.batches else b :: s.batches, reqs := (n, b, act) :: s.reqs }
+    let rest := s.batches.filter (fun x => !(sameStream x part pid epoch && x.seq == seq))
+    { s with batches := b :: rest, reqs := (n, b, act) :: s.reqs }
   | .wresp n part err _ delivered =>
     if !delivered && err == 0 then
       match s.reqs.find? (fun r => r.1 == n && r.2.1.part == part) with
